@@ -220,7 +220,7 @@ def judge(pid, tier, seed, t0, builds, results, nd=()):
         for o in obs:
             if o['status'] != 'SUCCESS' and (o['description'] or '').startswith('model limit:'):
                 raise Undecided('model-limit', '%s: %s (%s)' % (R['function'], o['description'], o['id']))
-        is_bounded = bool(fs.bounded) or any(k == 'bounded' for _, k in fs.unwind)
+        is_bounded = bool(fs.bounded) or any(k == 'bounded' for _, k in fs.unwind) or bool(fs.unwind_all and fs.unwind_all[1] == 'bounded')
         bad = [o for o in obs if o['status'] != 'SUCCESS']
         fails = [o for o in bad if o['status'] == 'FAILURE']
         if bad and not fails:
